@@ -11,7 +11,11 @@ import (
 // outside the synthetic package initialisers (rule E2 of DESIGN.md). It is
 // evaluated over every function, closure and declared init function of every
 // module package present in the loaded variant.
-func (e *Env) tableImmutability(rule string) {
+func (e *Env) tableImmutability(rule string, pkgs ...string) {
+	only := map[string]bool{}
+	for _, r := range pkgs {
+		only[load.ModPath+"/"+r] = true
+	}
 	ef := e.F.Effects()
 	n := 0
 	bad := map[string]bool{}
@@ -28,6 +32,9 @@ func (e *Env) tableImmutability(rule string) {
 			if !load.IsModule(w.Root.Global.Pkg.Pkg.Path()) {
 				continue
 			}
+			if len(only) > 0 && !only[w.Root.Global.Pkg.Pkg.Path()] {
+				continue // a property is only concerned with the variables of the packages it is anchored in
+			}
 			g := w.Root.Global
 			key := fmt.Sprintf("%s.%s written in %s", load.Rel(g.Pkg.Pkg.Path()), g.Name(), fn.String())
 			if bad[key] {
@@ -39,6 +46,9 @@ func (e *Env) tableImmutability(rule string) {
 	}
 	// one obligation per package-level variable of the library packages
 	for _, t := range e.F.AllTabs {
+		if len(only) > 0 && !only[t.Pkg.PkgPath] {
+			continue
+		}
 		k := load.Rel(t.Pkg.PkgPath) + "." + t.Name
 		hit := false
 		for b := range bad {
